@@ -193,11 +193,25 @@ func c15Create(c *ctx) {
 		return true, ""
 	}
 	sinks := 0
-	for _, g := range core.WithClosures(fn) {
+	for _, g := range unitFuncs(fn) {
 		for _, cs := range core.Calls(g) {
 			if core.CallIs(cs, "~/crypto/vss.samplePolynomial", "~/crypto/vss.evaluatePolynomial", "~/crypto.ScalarBaseMult") {
 				sinks++
-				ok, why := guarded(cs)
+				// judged where the step happens in Create: the call itself, or the call of the helper holding it
+				var at ssa.Instruction = cs
+				if core.Outermost(g) != fn {
+					at = nil
+					for _, c2 := range core.Calls(fn) {
+						if core.Callee(c2) == core.Outermost(g) {
+							at = c2
+						}
+					}
+				}
+				if at == nil {
+					c.r.Bad(rule, fkey(rule, fn, "deal-after-check:"+shortName(core.CalleeName(cs))), c.pos(cs), "dealing step in a helper that Create does not call directly")
+					continue
+				}
+				ok, why := guarded(at)
 				c.r.Check(ok, rule, fkey(rule, fn, "deal-after-check:"+shortName(core.CalleeName(cs))), c.pos(cs), "dealing step dominated by all refusal guards", "dealing step "+shortName(core.CalleeName(cs))+" is "+why)
 			}
 		}
@@ -296,18 +310,24 @@ func c15Create(c *ctx) {
 	}
 	c.r.Check(shOK, rule, fkey(rule, fn, "shares-at-checked-ids"), c.fpos(fn), "share_i = poly(ids[i]) with the checked ids, same threshold, stored with that id", why)
 	// commitments v[i] = poly[i]*G for all i
-	sbm := core.CallsTo(fn, "~/crypto.ScalarBaseMult")
+	var sbm []ssa.CallInstruction
+	for _, g := range unitFuncs(fn) {
+		if g.Parent() == nil {
+			sbm = append(sbm, core.CallsTo(g, "~/crypto.ScalarBaseMult")...)
+		}
+	}
 	vOK := len(sbm) == 1 && len(sps) == 1
 	if vOK {
+		// (the commitment loop may sit in a private helper commitToPolynomial(ec, poly))
 		call := sbm[0].(*ssa.Call)
-		a := core.TermOf(call.Call.Args[1])
+		a := core.FrameParamTerm(fn, call.Call.Args[1])
 		if !(a.Op == "[]" && a.Args[0].V == ssa.Value(sps[0].(*ssa.Call))) {
 			vOK = false
 		}
 		cov := false
-		for _, l := range core.Loops(fn) {
-			if l.In[call.Block()] && l.Lo == 0 && !l.HiIncl && a.Op == "[]" && core.TermOf(l.Idx).Key() == a.Args[1].Key() {
-				ht := core.TermOf(l.Hi)
+		for _, l := range core.Loops(call.Parent()) {
+			if l.In[call.Block()] && l.Lo == 0 && !l.HiIncl && a.Op == "[]" && core.FrameParamTerm(fn, l.Idx).Key() == a.Args[1].Key() {
+				ht := core.FrameParamTerm(fn, l.Hi)
 				if ht.Op == "call:len" && ht.Args[0].V == ssa.Value(sps[0].(*ssa.Call)) {
 					cov = true
 				}
@@ -373,23 +393,55 @@ func c15Verify(c *ctx) {
 	// loop j = 1..threshold
 	lpOK := false
 	var loop *core.Loop
-	for _, l := range core.Loops(fn) {
-		if l.Lo == 1 && l.HiIncl && thr(core.TermOf(l.Hi)) {
-			lpOK = true
-			loop = l
+	// the accumulation loop may sit in a private helper (evaluateInExponent(ec, threshold, vs, id) (point, error))
+	for _, g := range unitFuncs(fn) {
+		if g.Parent() != nil {
+			continue
 		}
-		if l.Lo == 1 && !l.HiIncl {
-			ht := core.TermOf(l.Hi)
-			if ht.Op == "bin+" && thr(ht.Args[0]) && constIs(ht.Args[1], 1) {
+		for _, l := range core.Loops(g) {
+			if l.Lo == 1 && l.HiIncl && thr(core.FrameTerm(fn, l.Hi)) {
 				lpOK = true
 				loop = l
+			}
+			if l.Lo == 1 && !l.HiIncl {
+				ht := core.FrameTerm(fn, l.Hi)
+				if ht.Op == "bin+" && thr(ht.Args[0]) && constIs(ht.Args[1], 1) {
+					lpOK = true
+					loop = l
+				}
 			}
 		}
 	}
 	if lpOK {
-		for _, b := range accept {
-			if !core.EdgeDominates(loop.Header, 1, b) {
+		if h := loop.Header.Parent(); h == fn {
+			for _, b := range accept {
+				if !core.EdgeDominates(loop.Header, 1, b) {
+					lpOK = false
+				}
+			}
+		} else {
+			// in the helper every success return follows the loop's exit, and fn accepts only behind the
+			// helper's nil-error edge
+			for _, ret := range core.SuccessReturns(h) {
+				if !core.EdgeDominates(loop.Header, 1, ret.Block()) {
+					lpOK = false
+				}
+			}
+			var hcall *ssa.Call
+			for _, cs := range core.Calls(fn) {
+				if cc, ok := cs.(*ssa.Call); ok && core.Callee(cc) == h {
+					hcall = cc
+				}
+			}
+			if hcall == nil {
 				lpOK = false
+			} else {
+				errV := extractOf(hcall, hcall.Call.Signature().Results().Len()-1)
+				for _, b := range accept {
+					if errV == nil || !core.HasNilFact(core.TFactsAt(b, 0), func(t *T) bool { return t.V == errV }, true) {
+						lpOK = false
+					}
+				}
 			}
 		}
 	}
@@ -423,10 +475,38 @@ func c15Verify(c *ctx) {
 	}
 	c.r.Check(resOK, rule, fkey(rule, fn, "result=Equals(share*G,acc)"), c.fpos(fn), "result is share*G == Σ id^j·v_j", why)
 	// Add error → false
-	adds := core.CallsTo(fn, "(*~/crypto.ECPoint).Add")
+	// (point additions, and calls of private helpers that hand their addition error back)
+	type errCall struct {
+		call   *ssa.Call
+		accept []*ssa.BasicBlock
+	}
+	var adds []errCall
+	for _, g := range unitFuncs(fn) {
+		if g.Parent() != nil {
+			continue
+		}
+		acc := accept
+		if g != fn {
+			acc = nil
+			for _, ret := range core.SuccessReturns(g) {
+				acc = append(acc, ret.Block())
+			}
+		}
+		for _, cs := range core.Calls(g) {
+			cc, ok := cs.(*ssa.Call)
+			if !ok || cc.Call.IsInvoke() {
+				continue
+			}
+			isHelperErr := g == fn && core.PrivateHelper(core.Callee(cc)) && cc.Call.Signature().Results().Len() == 2 && len(core.CallsTo(core.Callee(cc), "(*~/crypto.ECPoint).Add")) > 0
+			if core.CallIs(cc, "(*~/crypto.ECPoint).Add") || isHelperErr {
+				adds = append(adds, errCall{cc, acc})
+			}
+		}
+	}
 	addOK := len(adds) >= 1
-	for _, cs := range adds {
-		call := cs.(*ssa.Call)
+	for _, ec := range adds {
+		call := ec.call
+		accept := ec.accept
 		ev := extractOf(call, 1)
 		if ev == nil {
 			addOK = false
@@ -434,7 +514,7 @@ func c15Verify(c *ctx) {
 		}
 		// find the If on err != nil: its non-nil edge must not reach accept
 		found := false
-		for _, b := range fn.Blocks {
+		for _, b := range call.Parent().Blocks {
 			if len(b.Instrs) == 0 {
 				continue
 			}
